@@ -306,6 +306,17 @@ CInit == /\ cid \in 1..Len(Progs)
                      IF g.refused THEN ~L.fail ELSE (L.fail \/ Shape(L) # g.blocks)
 NoDrift == ~cdrift
 
+(************************ known-finding matching ***************************)
+\* MODE = "explain": Cases = recorded executions (of the block-wise interpretation of the REAL graph, or of the regenerated function) that
+\* disagree with the reference semantics on a program of a documented family.  Such a disagreement is the documented one exactly when the
+\* execution shows what the front end AS SPECIFIED here does on that script - events and outcome; anything else is a new defect.
+Explained(c) ==
+  LET l == RunLowered(c.pid, c.ans) IN
+  l.status # "unmodelled" /\ Flat(l.ev) = c.events /\ Outcome(l) = c.outcome
+InitExplain == /\ tid \in 1..Len(Cases) /\ bad = (IF Explained(Cases[tid]) THEN {} ELSE {"not-the-documented-behaviour"})
+               /\ pid = 0 /\ ans = <<>> /\ done = "done" /\ apid = 0 /\ aans = <<>> /\ adone = TRUE /\ abad = {} /\ cid = 0 /\ cdrift = FALSE
+NextExplain == UNCHANGED <<pid, ans, done, tid, bad, cid, cdrift, apid, aans, adone, abad>>
+
 \* ---- configurations ----
 InitMC   == AInit /\ Idle /\ cid = 0 /\ cdrift = FALSE
 NextMC   == ANext /\ UNCHANGED <<pid, ans, done, tid, bad, cid, cdrift>>
